@@ -223,6 +223,64 @@ func (c *Ctx) boolReturns(f *ssa.Function) []boolRet {
 			}
 		}
 	}
+	tfs := func(b bool) string {
+		if b {
+			return "T"
+		}
+		return "F"
+	}
+	// condRets: `return cond` (not a constant): one alternative per value of cond, carrying what that value implies
+	// (the tested atom itself, and - for a call to a private helper - what each matching return of the helper passed)
+	condRets := func(r *ssa.Return, v ssa.Value, base map[string]bool) []boolRet {
+		a, pos := decompose(v)
+		if a.X == nil {
+			return nil
+		}
+		var res []boolRet
+		for _, val := range []bool{true, false} {
+			holds := val == pos
+			facts := map[string]bool{}
+			for k := range base {
+				facts[k] = true
+			}
+			curEnv = nil
+			if !c.seenThrough(a) {
+				facts[c.atomLabel(a)+":"+tfs(holds)] = true
+			}
+			alts := [][]factAtom{nil}
+			if cl, k := helperOutcome(c.Prog, a); cl != nil && !c.opaqueHelper(cl.Call.StaticCallee()) {
+				h := cl.Call.StaticCallee()
+				e := env{}
+				for i, prm := range h.Params {
+					if i < len(cl.Call.Args) {
+						e[prm] = cl.Call.Args[i]
+					}
+				}
+				if inner := outcomeAlts(c.Prog, h, k, holds, e, helperDepth-1, map[*ssa.Function]bool{f: true, h: true}); len(inner) > 0 {
+					alts = inner
+				} else {
+					return nil // the helper's outcome cannot be characterised
+				}
+			}
+			for _, alt := range alts {
+				fs := map[string]bool{}
+				for k := range facts {
+					fs[k] = true
+				}
+				for _, fa := range alt {
+					curEnv = fa.A.Env
+					if c.seenThrough(fa.A) {
+						continue
+					}
+					fs[c.atomLabel(fa.A)+":"+tfs(fa.Holds)] = true
+				}
+				curEnv = nil
+				b := val
+				res = append(res, boolRet{R: r, Val: &b, Facts: fs})
+			}
+		}
+		return res
+	}
 	for _, r := range returnsOf(f) {
 		if len(r.Results) != 1 {
 			continue
@@ -246,6 +304,9 @@ func (c *Ctx) boolReturns(f *ssa.Function) []boolRet {
 				if b, ok := constBool(val); ok {
 					bb := b
 					br.Val = &bb
+				} else if cr := condRets(r, val, facts); cr != nil {
+					out = append(out, cr...)
+					continue
 				}
 				out = append(out, br)
 			}
@@ -255,6 +316,9 @@ func (c *Ctx) boolReturns(f *ssa.Function) []boolRet {
 		if b, ok := constBool(v); ok {
 			bb := b
 			br.Val = &bb
+		} else if cr := condRets(r, v, br.Facts); cr != nil {
+			out = append(out, cr...)
+			continue
 		}
 		out = append(out, br)
 	}
@@ -670,9 +734,11 @@ func ruleRD2(c *Ctx) {
 	// areEpicDepsComplete is called with task.EpicID
 	for _, f := range []*ssa.Function{isReady, isBlocked} {
 		ok := false
-		for _, call := range callsTo(f, aedc) {
-			if _, n, okf := fieldLoad(call.Common().Args[0]); okf && n == "EpicID" {
-				ok = true
+		for _, g := range c.predUnit(f) {
+			for _, call := range callsTo(g, aedc) {
+				if _, n, okf := fieldLoad(call.Common().Args[0]); okf && n == "EpicID" {
+					ok = true
+				}
 			}
 		}
 		c.check(ok, c.Name(f), "a:epic-deps-of-own-epic", c.FnPos(f), "asks areEpicDepsComplete about task.EpicID", "areEpicDepsComplete is not asked about the task's own EpicID")
